@@ -807,7 +807,7 @@ fn main() {
             r
         });
         // W3: keep calling finish() after an error was already returned (D6 family)
-        ctx.harness(Config::new("writer_finish_after_error", ctx.by_tier(1, 2)), |ch| {
+        ctx.harness(Config::new("writer_finish_after_error", ctx.by_tier(2, 3)), |ch| {
             ALL_KINDS.with(|k| k.set(false));
             writer_body(ch, &scripts_q[..2], &pools[..2], &[WEnd::FinishAfterError], true, CostModel::Preempt)
         });
